@@ -44,6 +44,9 @@ pub struct Case {
     /// plug the adversarial address generator into the wasm keeper (see contract::AdvAddrGen)
     #[serde(default)]
     pub adv_addr: bool,
+    /// plug in a checksum generator (the `ChecksumGenerator` seam) whose result depends on the creator
+    #[serde(default)]
+    pub creator_checksums: bool,
     pub ops: Vec<Op>,
 }
 
@@ -201,7 +204,14 @@ impl Sim {
             .with_storage(SimStorage::new())
             .with_bank(RecBank { inner: BankKeeper::new(), world: world.clone() })
             .with_wasm(RecWasm {
-                inner: if case.adv_addr { WasmKeeper::new().with_address_generator(crate::contract::AdvAddrGen) } else { WasmKeeper::new() },
+                inner: {
+                    let k = if case.adv_addr { WasmKeeper::new().with_address_generator(crate::contract::AdvAddrGen) } else { WasmKeeper::new() };
+                    if case.creator_checksums {
+                        k.with_checksum_generator(crate::contract::CreatorChecksums)
+                    } else {
+                        k
+                    }
+                },
                 world: world.clone(),
             })
             .with_custom(RecCustom { world: world.clone(), inner: custom_inner })
